@@ -187,3 +187,35 @@ func debugIfs(r *core.Run) {
 		}
 	}
 }
+
+func init() { Registry["X-calls"] = debugCalls }
+
+// X-calls: for GCV_FN, every call (in block order) with the provenance atoms of its arguments
+func debugCalls(r *core.Run) {
+	p := load(r, core.LoadOpts{})
+	fn := p.Func(os.Getenv("GCV_FN"))
+	if fn == nil {
+		fmt.Println("no such function")
+		return
+	}
+	filter := os.Getenv("GCV_CALLS")
+	for _, b := range fn.Blocks {
+		for _, ins := range b.Instrs {
+			switch x := ins.(type) {
+			case ssa.CallInstruction:
+				n := an.CallName(x)
+				if filter != "" && !strings.Contains(filter, n) {
+					continue
+				}
+				fmt.Printf("b%d %s %s\n", b.Index, p.Pos(an.InstrPos(ins)), n)
+				for i, a := range x.Common().Args {
+					fmt.Printf("     arg%d: %s\n", i, an.AtomList(an.Atoms(a)))
+				}
+			case *ssa.Store:
+				if os.Getenv("GCV_STORES") != "" {
+					fmt.Printf("b%d %s STORE %s <- %s\n", b.Index, p.Pos(an.InstrPos(ins)), an.AtomList(an.Atoms(x.Addr)), an.AtomList(an.Atoms(x.Val)))
+				}
+			}
+		}
+	}
+}
